@@ -544,7 +544,7 @@ impl<T: ToVal + Send + Sync + 'static> Probe<T> {
                 let mut react = me.spec.react.get(ordinal).copied().unwrap_or(me.spec.react_default);
                 // a sink may stop asking at any time; this one does after MAX_MSGS messages, so that
                 // unbounded iterators cannot make a scenario diverge
-                if ordinal >= MAX_MSGS && matches!(react, React::Pull | React::Pull2) {
+                if ordinal >= MAX_MSGS && matches!(react, React::Pull | React::Pull2 | React::PullTerminate | React::PullError) {
                     react = React::Nothing;
                 }
                 match react {
@@ -556,6 +556,14 @@ impl<T: ToVal + Send + Sync + 'static> Probe<T> {
                     }
                     React::Terminate => me.do_send(sub, SendKind::Terminate, true),
                     React::Error => me.do_send(sub, SendKind::Error, true),
+                    React::PullTerminate => {
+                        me.do_send(sub, SendKind::Pull, true);
+                        me.do_send(sub, SendKind::Terminate, true);
+                    }
+                    React::PullError => {
+                        me.do_send(sub, SendKind::Pull, true);
+                        me.do_send(sub, SendKind::Error, true);
+                    }
                 }
                 me.world.exit(h);
             })
